@@ -328,6 +328,8 @@ class Sim:
             return self.act_get_registry()
         if self.rng.random() < self.o['unknown']:
             iface = self.rng.choice(UNKNOWN_IFACES)
+        elif self.o.get('prefer_fixed') and self.rng.random() < self.o['prefer_fixed']:
+            iface = self.rng.choice([p for p in ('wl_pointer', 'wl_touch', 'zwp_tablet_tool_v2', 'wp_viewport') if p in self.cands] or POPULAR[:1])
         elif self.rng.random() < 0.75:
             iface = self.rng.choice([p for p in POPULAR if p in self.cands])
         else:
@@ -408,6 +410,8 @@ class Sim:
             cs = self.cands[ob.type][0]
             names = sorted(cs['messages'])
             self.rng.shuffle(names)
+            if self.o.get('prefer_fixed') and self.rng.random() < 0.5:
+                names.sort(key=lambda nm: 0 if any(a['type'] == 'fixed' for a in cs['messages'][nm]['args']) else 1)   # messages carrying fixed-point values first
             for name in names[:6]:
                 md = self.msg_desc(ob.type, name)
                 if md is None:
